@@ -19,7 +19,9 @@ PARTIAL = [
     "float operation exact), and approximate on non-dyadic weights / strengths / eps / cutoff (pattern, dimensions and initial guess "
     "exact; every matrix entry within (1+2^-24)^K-1 relative, K = 1..3 rounded operations by variant, every rhs entry within "
     "(1+2^-24)^(K+1+n)-1 times the magnitude bound of its n summed terms - bounds derived from the operation count, not tuned; "
-    "measured: at half the bound 30% of the cases fail, i.e. the bound is within a factor two of the observed rounding). In the "
+    "measured on the quick stream: with the matrix bound halved 30% of the cases fail, i.e. it is within a factor two of the "
+    "observed rounding; the rhs bound, which uses the coarse magnitude bound D_r*5C for the summed terms, is 16..64 times above the "
+    "observed error, still ~1e-5 relative). In the "
     "approximate stream pin positions are small multiples of 1/2 so that positions, distances and min/max selection are exact: "
     "rounding of *positions* on general inputs (which can change which pin is the extreme one) is covered by the oracles only",
     "least squares: proved (over Rat) for all five variants - initial star, B2B, star, clique, light star, any pin count - with or "
@@ -28,8 +30,8 @@ PARTIAL = [
     "around), positive semidefinite, every exact solution minimises it (net_models_are_least_squares, net_model_solution_minimizes; "
     "hypotheses: valid cells, weights, strengths and eps >= 0), the quadratic is linear in the weights "
     "(model_quadratic_homogeneous), and a two-pin net is the single spring W/max(eps,|d|) in every model except B2B with coincident "
-    "pins, where it is exactly twice that (two_pin_net_quadratic). These statements are about the system *before* finalize; "
-    "finalize adds 1e-8 * x_i^2 for untouched unknowns (regularisation_rows_inert shows it cannot interact with any net). NOT "
+    "pins, where it is exactly twice that (two_pin_net_quadratic). The finalized system is the normal-equation system of the same "
+    "quadratic plus 1e-8 * x_i^2 on the untouched unknowns (finalized_system_is_least_squares). NOT "
     "proved: that the real solver's output satisfies A x = b up to its tolerance (oracle LS compares the initial star solve with "
     "the minimiser of Q computed independently in double; the weight<1 gadget does the same for two-pin nets in all five variants; "
     "there is no direct least-squares oracle on the real solver for B2B/clique/star/light-star nets of more than two pins - for "
